@@ -35,6 +35,7 @@ type HarnessSpec struct {
 	MaxRuns int
 	NoInit  bool
 	Expect  string
+	WallS   int
 }
 
 type HarnessResult struct {
@@ -169,6 +170,16 @@ func setupWorkspace(repoDir, verifDir, prop string) (*Workspace, error) {
 				inst := strings.ReplaceAll(src, "ELEMTITLE", typeTitle[ty])
 				inst = strings.ReplaceAll(inst, "ELEMTYPE", ty)
 				inst = regexp.MustCompile(`(?m)^//vsym:foreach.*$`).ReplaceAllString(inst, "")
+				// "tier=quick quicktypes=a,b": only the listed element types stay in the quick tier
+				inst = regexp.MustCompile(`tier=quick(.*) quicktypes=([a-z0-9,]+)`).ReplaceAllStringFunc(inst, func(m string) string {
+					sm := regexp.MustCompile(`tier=quick(.*) quicktypes=([a-z0-9,]+)`).FindStringSubmatch(m)
+					for _, q := range strings.Split(sm[2], ",") {
+						if q == ty {
+							return "tier=quick" + sm[1]
+						}
+					}
+					return "tier=thorough" + sm[1]
+				})
 				gen := filepath.Join(scratch, "gen_"+strings.ReplaceAll(strings.TrimSuffix(rel, ".go"), "/", "_")+"_"+ty+".go")
 				os.WriteFile(gen, []byte(inst), 0644)
 				virt := filepath.Join(repoDir, filepath.Dir(rel), strings.TrimSuffix(filepath.Base(rel), ".go")+"_"+ty+".go")
@@ -234,6 +245,10 @@ func parseDirectives(doc string, hs *HarnessSpec) {
 				hs.Cfg.MaxConcrete, _ = strconv.Atoi(p[1])
 			case "maxruns":
 				hs.MaxRuns, _ = strconv.Atoi(p[1])
+			case "prunefrom":
+				hs.Cfg.PruneFrom, _ = strconv.Atoi(p[1])
+			case "wall":
+				hs.WallS, _ = strconv.Atoi(p[1])
 			case "noinit":
 				hs.NoInit = p[1] == "1"
 			case "expect":
@@ -295,7 +310,7 @@ func loadAll(ws *Workspace, tier string) (*Loaded, error) {
 					continue
 				}
 				hs := &HarnessSpec{Name: fd.Name.Name, Pkg: p.PkgPath, Tier: "quick",
-					Cfg: Config{Ints: "bv", Floats: "real", Unwind: 64, FeasMs: 2000, ObligMs: 60000, MaxConcrete: 64}, MaxRuns: 4000}
+					Cfg: Config{Ints: "bv", Floats: "real", Unwind: 64, FeasMs: 2000, ObligMs: 60000, MaxConcrete: 64, PruneFrom: 3}, MaxRuns: 4000, WallS: 600}
 				hs.PkgDir = strings.TrimPrefix(strings.TrimPrefix(p.PkgPath, repoMod), "/")
 				if fd.Doc != nil {
 					hs.Doc = fd.Doc.Text()
@@ -467,12 +482,17 @@ func runHarness(ld *Loaded, hs *HarnessSpec, tier string, known map[string]bool,
 	stubs := map[string]bool{}
 	syms := map[string]bool{}
 	seenOb := map[string]*Obligation{}
+	feasCache := map[string]bool{}
 	for len(queue) > 0 {
 		spec := queue[0]
 		queue = queue[1:]
 		hr.Runs++
 		if hr.Runs > hs.MaxRuns {
 			hr.Unsupported = append(hr.Unsupported, fmt.Sprintf("more than %d paths", hs.MaxRuns))
+			break
+		}
+		if hs.WallS > 0 && time.Since(t0).Seconds() > float64(hs.WallS) {
+			hr.Unsupported = append(hr.Unsupported, fmt.Sprintf("harness wall budget of %d s exhausted after %d paths (%d pending)", hs.WallS, hr.Runs-1, len(queue)+1))
 			break
 		}
 		ts.fresh = 0
@@ -482,6 +502,7 @@ func runHarness(ld *Loaded, hs *HarnessSpec, tier string, known map[string]bool,
 		in.tier = tier
 		in.known = known
 		in.noInit = hs.NoInit
+		in.feasCache = feasCache
 		in.forced = spec.forced
 		in.forcedSite = spec.sites
 		var keys []string
